@@ -92,7 +92,7 @@ func runC09(c *vlib.HistCase, stats *vlib.Stats) (bool, []string, error) {
 
 var profC09 = vlib.Profile{
 	Prop: "C09", MinLogs: 1, MaxLogs: 3, MinOps: 3, MaxOps: 30,
-	Storages: []string{"mem", "sql"}, Weights: vlib.DefaultWeights, MaxJump: 2048, OtherLogPct: 25, Decorate: 15, SharedKeys: true, MixOldPct: 20, NonCanonPct: 8,
+	Storages: []string{"mem", "sql"}, Weights: vlib.DefaultWeights, MaxJump: 2048, OtherLogPct: 25, Decorate: 15, SharedKeys: true, MixOldPct: 20, NonCanonPct: 8, ECDSAPct: 20,
 }
 
 func init() {
